@@ -7,7 +7,7 @@ cd /verif
 for s in "$@"; do
   d=seeded/$s
   git -C /repo diff --quiet || { echo "/repo is dirty"; exit 3; }
-  git -C /repo apply $d/patch.diff || { echo "$s: patch does not apply"; continue; }
+  git -C /repo apply /verif/$d/patch.diff || { echo "$s: patch does not apply"; continue; }
   for p in $(python3-vt -c "import json; print(' '.join(json.load(open('$d/meta.json'))['breaks']))"); do
     t0=$(date +%s); timeout 3000 ./check $p --tier quick > /tmp/seed_${s}_$p.log 2>&1; rc=$?
     line=$(grep -A1 '^VIOLATION' /tmp/seed_${s}_$p.log | grep -v '^VIOLATION\|^--' | head -1 | cut -c1-260)
